@@ -15,6 +15,7 @@ let run_job (job : Sx.t) : string =
   | "panicparse" -> Jpanic.job_panicparse job
   | "sizes" -> Jprog.job_sizes job
   | "lowerm" -> Jprog.job_lowerm job
+  | "tsem" -> Jprog.job_tsem job
   | "bristol-out" -> Jbristol.job_bristol_out job
   | "bristol-in" -> Jbristol.job_bristol_in job
   | "exhaust" -> Jexhaust.job_exhaust job
